@@ -174,6 +174,7 @@ def rule_r1(ctx, results, facts):
     jmap = {(j["fn"], j["term"]): j for j in just if j.get("property", "C07") in ("C07", "*")}
     used = set()
     sites = {}
+    bad_entries = {}
     rank = {"safe": 0, "unknown": 1, "fail": 2}
     for name, res in results.items():
         if res.error:
@@ -183,6 +184,8 @@ def rule_r1(ctx, results, facts):
         for o in res.obligations:
             k = site_key(facts, o)
             cur = sites.get(k)
+            if o["verdict"] != "safe":
+                bad_entries.setdefault(k, set()).add(name)
             if cur is None or rank[o["verdict"]] > rank[cur["verdict"]]:
                 sites[k] = dict(o, entry=name)
         for cal, n in res.unmodelled.items():
@@ -198,7 +201,16 @@ def rule_r1(ctx, results, facts):
         j = jmap.get((fn, term))
         if j is not None:
             used.add((fn, term))
-            failed = [sc for sc in j.get("side_conditions", []) if not check_side(facts, sc)]
+            failed = []
+            for sc in j.get("side_conditions", []):
+                if sc.get("kind") == "entries_only":
+                    # the argument covers the site only when reached from the listed entry points; from any other entry the
+                    # interpreter itself must have refuted it
+                    extra = sorted(bad_entries.get((fn, term), set()) - set(sc["only_entries"]))
+                    if extra:
+                        failed.append(dict(sc, reached_from=extra))
+                elif not check_side(facts, sc):
+                    failed.append(sc)
             if failed:
                 r.bad("%s|%s|side" % (fn, term[:120]), "the argument recorded for %s no longer applies: side-condition %s "
                       "does not hold" % (term[:120], failed[0]), where, "unverifiable")
